@@ -89,7 +89,7 @@ func r05_2(c *Ctx, r *Report) {
 
 func r05_3(c *Ctx, r *Report) {
 	const rule = "R05.3"
-	r.rule(rule, "The 23:00 rule. computeDay is evaluated symbolically over its finite input domain — every hour 0..23, every minute 0..59 and every value of the plain day stem (0..9) and branch (0..11) index: on the unique feasible path the stored early-rat index (…Exact) equals (plain + [hour == 23]) modulo its cycle and the stored late-rat index (…Exact2) equals the plain index. computeTime and NewLunarTime derive the hour stem from the early-rat day stem. Any implementation of the boundary test (string comparison of HH:MM or integer test of the hour) is accepted.")
+	r.rule(rule, "The 23:00 rule. computeDay is evaluated symbolically over its finite input domain — every hour 0..23, every minute 0..59 and every value of the plain day stem (0..9) and branch (0..11) index: on the unique feasible path the stored early-rat index (…Exact) equals (plain + [hour == 23]) modulo its cycle and the stored late-rat index (…Exact2) equals the plain index. computeTime and NewLunarTime, followed for every hour, three minutes and every plain day stem (the date object's fields are abstract inputs: the early-rat stem is the plain one moved on at 23:xx), store the hour stem the five-rats rule gives on the early-rat day stem: ((stem mod 5)·2 + branch of the two-hour slot) mod 10. Any implementation of the boundary test (string comparison of HH:MM or integer test of the hour) is accepted.")
 	fn := c.Fn(r, rule, "calendar.computeDay")
 	if fn == nil {
 		return
@@ -194,14 +194,82 @@ func r05_3(c *Ctx, r *Report) {
 			r.check(len(problems) == 0 && n > 0, rule, construct, c.fnPos(fn), fmt.Sprintf("%d cases (24 hours x 60 minutes x pillars) followed; %s", n, strings.Join(headList(problems, 3), "; ")))
 		}
 	}
-	if tf := c.Fn(r, rule, "calendar.computeTime"); tf != nil {
-		reads := c.eff.Of(tf).paramReads(0)
-		has := func(p string) bool { return containsStr(reads, p) }
-		r.check(has(".dayGanIndexExact") && !has(".dayGanIndex") && !has(".dayGanIndexExact2"), rule, "calendar.computeTime derives the hour stem from the early-rat day stem", c.fnPos(tf), "reads "+strings.Join(reads, " "))
-	}
-	if tf := c.Fn(r, rule, "calendar.NewLunarTime"); tf != nil {
-		_, uses := c.eff.Of(tf).Calls["calendar.(*Lunar).GetDayGanIndexExact"]
-		r.check(uses, rule, "calendar.NewLunarTime derives the hour stem from the early-rat day stem", c.fnPos(tf), "calls GetDayGanIndexExact")
+	// the hour stem: both builders are followed for every hour, three minutes and every plain day stem; the early-rat
+	// day stem is the plain one moved on at 23:xx, whichever way the function gets at it
+	for _, name := range []string{"calendar.computeTime", "calendar.NewLunarTime"} {
+		tf := c.Fn(r, rule, name)
+		if tf == nil {
+			continue
+		}
+		field := "Lunar.timeGanIndex"
+		if name == "calendar.NewLunarTime" {
+			field = "LunarTime.ganIndex"
+		}
+		var problems []string
+		n := 0
+		for h := int64(0); h < 24 && len(problems) < 3; h++ {
+			for _, m := range []int64{0, 30, 59} {
+				for g := int64(0); g < 10 && len(problems) < 3; g++ {
+					exact := g
+					if h == 23 {
+						exact = (g + 1) % 10
+					}
+					var leaf leafX
+					leaf = func(fr *evalFrame, v ssa.Value) (interface{}, bool) {
+						if p, ok := v.(*ssa.Parameter); ok && fr.parent == nil && len(tf.Params) == 6 {
+							for i, q := range tf.Params {
+								if p == q {
+									return []int64{2023, 5, 9, h, m, 7}[i], true
+								}
+							}
+						}
+						if p, ok := v.(*ssa.Parameter); ok && fr.parent == nil && len(tf.Params) == 1 && p == tf.Params[0] {
+							return absPtr{"lunar", false}, true
+						}
+						if call, ok := v.(*ssa.Call); ok && call.Common().StaticCallee() != nil && fname(call.Common().StaticCallee()) == "calendar.NewLunar" {
+							return absPtr{"lunar", false}, true
+						}
+						if rc, f, ok := getterField(c, v); ok && structName(rc.Type()) == "Lunar" {
+							if o, ok := evalWith(fr, rc, leaf); !ok || o != interface{}(absPtr{"lunar", false}) {
+								return nil, false
+							}
+							switch f {
+							case "Lunar.hour":
+								return h, true
+							case "Lunar.minute":
+								return m, true
+							case "Lunar.second":
+								return int64(7), true
+							case "Lunar.dayGanIndex", "Lunar.dayGanIndexExact2":
+								return g, true
+							case "Lunar.dayGanIndexExact":
+								return exact, true
+							}
+						}
+						return nil, false
+					}
+					ev := &evaluator{leaf: leaf, inline: inlineLibrary, counted: 64}
+					got, stored := interface{}(nil), false
+					ev.onStore = func(fr *evalFrame, st *ssa.Store, v interface{}, ok bool) {
+						if fa, isF := st.Addr.(*ssa.FieldAddr); isF && fieldKeyOf(fa) == field {
+							got, stored = v, ok
+						}
+					}
+					_, outcome := ev.run(tf, nil, nil, nil, nil)
+					n++
+					want := (exact%5*2 + (h+1)/2%12) % 10
+					switch {
+					case outcome != "return":
+						problems = append(problems, fmt.Sprintf("at %02d:%02d the function could not be followed: %s %s", h, m, outcome, ev.fail))
+					case !stored:
+						problems = append(problems, fmt.Sprintf("at %02d:%02d no evaluable store to %s", h, m, field))
+					case got != interface{}(want):
+						problems = append(problems, fmt.Sprintf("at %02d:%02d with plain day stem %d the hour stem is %v, stated %d (five-rats rule on the early-rat day stem %d)", h, m, g, got, want, exact))
+					}
+				}
+			}
+		}
+		r.check(len(problems) == 0 && n == 720, rule, name+" derives the hour stem from the early-rat day stem", c.fnPos(tf), fmt.Sprintf("%d cases (24 hours x 3 minutes x 10 day stems) followed; %s", n, strings.Join(headList(problems, 3), "; ")))
 	}
 }
 
